@@ -275,7 +275,7 @@ fn run(ctx: &mut Ctx) {
             } else {
                 bad[((idx / 6) % 8) as usize]
             };
-            let good_len = ctx.rng.range(0, 10) as usize;
+            let good_len = if ctx.rng.chance(1, 4) { ctx.rng.range(60, 300) as usize } else { ctx.rng.range(0, 10) as usize };
             let mut text = val::utf8_exact(&mut ctx.rng, good_len).into_bytes();
             // insert at a character boundary: at the start, or at the end
             if ctx.rng.bool() {
